@@ -41,6 +41,7 @@ REQUIRED_FAMILIES = [
     "interp-cubic",
     "interp-log",
     "interp-linear",
+    "interp-batch",
 ]
 BUDGET = {"quick": 300, "thorough": 3000}
 RULE = (
@@ -62,7 +63,12 @@ RULE = (
     "quick, two in thorough, drawn by the case generator): the clone must equal the original in every public property, leave the original "
     "unchanged, and - for a seed-rotated half of the cases - goes through the same post-conditions as a fresh grid (layout against the "
     "construction arguments, weights, all-index round trip, separable integral, axis nodes, enclosure margins, closest_point queries, "
-    "interpolation, cube writing)."
+    "interpolation, cube writing). Batch size: family interp-batch sweeps the NUMBER of query points of one interpolate call over "
+    "1, 2, 1023, 1024, 1025, 2048 (cubic and logarithmic variant; thorough also 4097 - the library's cubic evaluation needs O(n^2) memory, "
+    "so 10^4 points are not attempted there) and additionally 4097, 10007 (thorough 100003) for 'linear' and 'nearest', on UniformGrid and "
+    "Tensor1DGrids, with nu=(0,0,0) and a drawn derivative order per case (single-axis orders for the logarithmic variant); every call is "
+    "decided by the attached exactness monitor ('nearest': value of the brute-force nearest node, ties excluded) and the result of a point "
+    "must not depend on the batch it is in (sub-batch and single-point re-evaluation, 1e-13 of the value scale)."
 )
 ASSUMPTIONS = [
     "box volume V = |det(diag(M) axes)| (M_i steps of length |a_i| per axis, as the library documents it)",
@@ -85,6 +91,9 @@ TOL_CUBIC = 1e-8
 TOL_LOG = 1e-8
 TOL_LIN = 1e-11
 
+BATCH_SIZES_HEAVY = [1, 2, 1023, 1024, 1025, 2048, 4097]
+BATCH_SIZES_LIGHT = [1, 2, 1023, 1024, 1025, 2048, 4097, 10007, 100003]
+TOL_BATCH = 1e-13
 _SEEN = {}
 _TRUTH = {}  # id(values array) -> dict describing the exact function (registered by the workload)
 
@@ -125,6 +134,14 @@ def cases(tier, seed):
             out.append(("interp-log", {"grid": gk, "k": k}, 10.0))
         for k in range(8 if q else 400):
             out.append(("interp-linear", {"grid": gk, "k": k}, 2.0))
+        # number of query points handed over in ONE call, swept across the sizes where a block-wise / chunked evaluation
+        # would switch paths (deterministic cross product: method x size x grid class; nu and data drawn per case)
+        for method in ("cubic", "log", "linear", "nearest"):
+            heavy = method in ("cubic", "log")  # the library's cubic evaluation needs O(n^2) memory: 4097 points ~ 0.65 GB
+            sizes = BATCH_SIZES_HEAVY[: 6 if q else 7] if heavy else BATCH_SIZES_LIGHT[: 8 if q else 9]
+            for n in sizes:
+                for k in range(1 if q else (6 if heavy else 4)):
+                    out.append(("interp-batch", {"grid": gk, "method": method, "n": n, "k": k}, 20.0 + n / 100.0 if heavy else 4.0))
     return out
 
 
@@ -514,13 +531,29 @@ def setup(ctx):
         nu = (int(nx), int(ny), int(nz))
         kind = "log" if use_log else method
         subj = f"{type(self).__name__}.interpolate:{kind}:nu={nu[0]}{nu[1]}{nu[2]}" + tr.get("stag", "")
-        clause = {"cubic": "interp-cubic-exact", "log": "interp-log-exact", "linear": "interp-linear-exact"}[kind]
+        clause = {"cubic": "interp-cubic-exact", "log": "interp-log-exact", "linear": "interp-linear-exact", "nearest": "interp-nearest-node"}.get(kind)
+        if clause is None or (use_log and method != "cubic") or (kind == "nearest" and "nodes" not in tr):
+            ctx.count("interpolate:combination-not-decided")
+            return
         if exc is not None:
             ctx.fail(clause, subj + tr.get("tag", ""), f"raised:{type(exc).__name__}", detail={"error": str(exc)[:200], "shape": self.shape})
             return
         pts = np.asarray(points, float)
         h = tr["h"]
-        if kind == "log":
+        keep = None
+        if kind == "nearest":
+            idx = []
+            keep = np.ones(len(pts), dtype=bool)
+            for d in range(3):
+                dist = np.abs(np.asarray(tr["nodes"][d], float)[None, :] - pts[:, d : d + 1])
+                o = np.argsort(dist, axis=1)[:, :2]
+                d1, d2 = np.take_along_axis(dist, o[:, :1], 1)[:, 0], np.take_along_axis(dist, o[:, 1:2], 1)[:, 0]
+                keep &= (d2 - d1) > 1e-9 * h[d]  # equidistant nodes: don't care
+                idx.append(o[:, 0])
+            shape3 = tuple(len(nd) for nd in tr["nodes"])
+            want = np.asarray(values, float).reshape(shape3)[idx[0], idx[1], idx[2]]
+            scale, tol = tr["fmax"], 0.0
+        elif kind == "log":
             axis = [d for d in range(3) if nu[d] > 0]
             order = sum(nu)
             want = ref.exp_poly3(tr["c"], pts, axis[0] if axis else None, order)
@@ -537,8 +570,10 @@ def setup(ctx):
             ctx.fail(clause, subj, "wrong-result-shape", detail={"got": list(got.shape), "want": list(want.shape)})
             return
         err = np.abs(got - want)
+        if keep is not None:
+            err = np.where(keep, err, 0.0)
         worst = int(np.argmax(err))
-        ctx.check(clause, subj, float(err[worst]) / scale, tol, sig="interpolant!=polynomial", detail={"point": pts[worst], "got": float(got[worst]), "want": float(want[worst]), "scale": scale, "shape": self.shape, "grid": type(self).__name__})
+        ctx.check(clause, subj, float(err[worst]) / scale, tol, sig="interpolant!=polynomial" if kind != "nearest" else "value!=value-at-nearest-node", detail={"point": pts[worst], "got": float(got[worst]), "want": float(want[worst]), "scale": scale, "shape": self.shape, "grid": type(self).__name__})
 
     instrument.wrap_method(ctx, _defining_class(UniformGrid, "interpolate"), "interpolate", post_interp, hook="interpolate")
 
@@ -592,6 +627,14 @@ def _roundtrip_all(ctx, g, tag=""):
                 bad_p += 1
         ctx.check("index-maps-inverse", subj + ":index->coords->index", bad_a == 0, sig="not-identity", detail={"bad": bad_a, "of": n, "first": first, "shape": shape})
         ctx.check("index-maps-inverse", subj + ":coords->index->coords", bad_b == 0, sig="not-identity", detail={"bad": bad_b, "of": n, "first": first, "shape": shape})
+        try:
+            many = g.coordinates_to_index(np.array(list(itertools.product(*[range(m) for m in shape]))))
+        except Exception as exc:  # noqa: BLE001  (an (N, D) array is beyond the documented "tuple of int": a rejection is not decided)
+            if not core.is_library_exception(exc):
+                raise
+            ctx.count("coordinates_to_index:many-at-once-rejected-not-decided")
+        else:
+            ctx.check("index-maps-inverse", subj + ":all-coordinates-in-one-call", bool(np.shape(many) == (n,) and np.array_equal(np.asarray(many), np.arange(n))), sig="wrong-flat-indices-for-an-(N,D)-array")
         ctx.check("layout-lexicographic", subj + ":last-index-fastest", bad_p == 0, sig="lexicographic-enumeration-differs-from-flat-order", detail={"bad": bad_p, "of": n, "shape": shape})
     ctx.count("indices-round-tripped", 2 * n)
 
@@ -1110,6 +1153,67 @@ def _interp_log(ctx, p):
     _TRUTH.clear()
 
 
+def _interp_batch(ctx, p):
+    """n query points in ONE call; every call is decided by the attached monitor, plus batch independence."""
+    rng = ctx.rng
+    method, n = p["method"], int(p["n"])
+    g, nodes, h = _interp_grid(ctx, p["grid"], 7, 9, negative=p["grid"] == "uniform" and rng.random() < 0.25)
+    q = _interior_points(rng, nodes, max(n, 3))[:n]
+    through_zero = (int(p.get("k", 0)) + BATCH_SIZES_LIGHT.index(n)) % 2 == 0
+    drawn = tuple(int(v) for v in (rng.integers(1, 4, 3) if through_zero else rng.integers(0, 4, 3)))
+    if method == "log":
+        c = rng.normal(size=(4, 4, 4))
+        c = c * (rng.uniform(0.5, 2.5) / np.abs(ref.poly3(c, g.points)).max())
+        values = ref.exp_poly3(c, g.points)
+        pmax = float(np.abs(ref.poly3(c, g.points)).max())
+        _register(values, c=c, h=h, fmax=float(values.max()), pmax=pmax, stag=f":n={n}")
+        axis = int(rng.integers(3))
+        one = [0, 0, 0]
+        one[axis] = drawn[axis] if drawn[axis] else 1
+        calls = [((0, 0, 0), float(values.max()) * (1.0 + pmax))]
+        if n <= 2048:  # the Bell-polynomial loop of the library costs ~1 ms per point and order
+            calls.append((tuple(one), float(values.max()) * (1.0 + pmax) * ((1.0 + pmax) / h[axis]) ** one[axis]))
+        kw = {"use_log": True}
+    else:
+        c = rng.normal(size=(4, 4, 4))
+        if method in ("linear", "nearest"):
+            c[2:, :, :] = 0.0
+            c[:, 2:, :] = 0.0
+            c[:, :, 2:] = 0.0
+        values = ref.poly3(c, g.points)
+        fmax = float(np.abs(values).max()) or 1.0
+        _register(values, c=c, h=h, fmax=fmax, nodes=[np.asarray(nd, float) for nd in nodes], stag=f":n={n}")
+        calls = [((0, 0, 0), fmax)]
+        if method == "cubic":
+            calls.append((drawn, fmax * float(np.prod([h[d] ** (-drawn[d]) for d in range(3)]))))
+        kw = {"method": method}
+    subj = f"{type(g).__name__}.interpolate:{method}:n={n}"
+    clause = {"cubic": "interp-cubic-exact", "log": "interp-log-exact", "linear": "interp-linear-exact", "nearest": "interp-nearest-node"}[method]
+    ctx.case_note("n_query_points", n)
+    for nu, scale in calls:
+        with ctx.guard(clause, subj):
+            full = np.asarray(g.interpolate(q, values, nu_x=nu[0], nu_y=nu[1], nu_z=nu[2], **kw), float)
+            ctx.count(f"interpolate:{method}:points-in-one-call={n}")
+            if full.shape != (n,):
+                continue  # recorded by the monitor (wrong-result-shape)
+            # a point's result does not depend on the batch it is evaluated in
+            pick = sorted({0, n // 2, n - 1, *[int(i) for i in rng.integers(0, n, 3)]})
+            sub = np.asarray(g.interpolate(q[pick], values, nu_x=nu[0], nu_y=nu[1], nu_z=nu[2], **kw), float)
+            single = np.array([float(np.asarray(g.interpolate(q[i : i + 1], values, nu_x=nu[0], nu_y=nu[1], nu_z=nu[2], **kw), float)[0]) for i in pick[:3]])
+            dev = max(float(np.abs(sub - full[pick]).max()), float(np.abs(single - full[pick[:3]]).max())) / scale
+            ctx.check("interp-batch-independent", subj, dev, 0.0 if method == "nearest" else TOL_BATCH, sig="result-depends-on-batch", detail={"n": n, "nu": nu, "indices": pick, "in_batch": full[pick], "alone": sub})
+    _TRUTH.clear()
+    if n == 1 and p.get("k", 0) == 0:  # documented: interpolation exists in three dimensions only (recorded, not decided)
+        from grid.cubic import UniformGrid
+
+        g2 = UniformGrid(np.zeros(2), np.eye(2), np.array([7, 8]))
+        try:
+            g2.interpolate(np.zeros((2, 2)), np.ones(56), method="linear")
+            ctx.count("interpolate:2-D-grid-accepted")
+        except NotImplementedError:
+            ctx.count("interpolate:2-D-grid-rejected-with-NotImplementedError")
+
+
 def _interp_linear(ctx, p):
     rng = ctx.rng
     g, nodes, h = _interp_grid(ctx, p["grid"], 2 if rng.random() < 0.3 else 4, 9, negative=p["grid"] == "uniform" and rng.random() < 0.3)
@@ -1213,5 +1317,7 @@ def run_case(ctx, family, params):
         _interp_log(ctx, params)
     elif family == "interp-linear":
         _interp_linear(ctx, params)
+    elif family == "interp-batch":
+        _interp_batch(ctx, params)
     else:
         raise ValueError(family)
